@@ -87,6 +87,10 @@ pub struct Sim {
     pending_fail: Option<u32>,
     pending_starve: bool,
     pending_fsize: Option<u8>,
+    /// end the run without a finding (the state left is one no property speaks about)
+    stop: bool,
+    /// a plain file sits where rebuild wants to put its index backup
+    backup_blocked: bool,
     had_restart: bool,
     had_crash: bool,
     /// a store returned an error since the last restart (what it left behind may surface there)
@@ -134,6 +138,8 @@ impl Sim {
             pending_fail: None,
             pending_starve: false,
             pending_fsize: None,
+            stop: false,
+            backup_blocked: false,
             had_restart: false,
             had_crash: false,
             failed_store_since_restart: false,
@@ -490,6 +496,9 @@ impl Sim {
             if self.step(i, op).is_some() {
                 return false;
             }
+            if self.stop {
+                break;
+            }
         }
         true
     }
@@ -511,8 +520,11 @@ impl Sim {
                         finding = Some(f);
                         break;
                     }
+                    if self.stop {
+                        break;
+                    }
                 }
-                if finding.is_none() && self.cfg.obs_level == 9 {
+                if finding.is_none() && self.cfg.obs_level == 9 && !self.stop {
                     // the final observation of a sparsely observed run
                     let o = self.observe();
                     self.last_obs = Some(o);
@@ -590,6 +602,15 @@ impl Sim {
                 if (*which == 1 || *which == 2) && l.exists() {
                     let _ = fs::remove_dir_all(&l);
                     self.stats.inc("fault/backup_part_removed");
+                }
+                if *which == 3 && l.is_dir() {
+                    // something that is not a directory sits where the index backup goes: the next
+                    // rebuild cannot clear the way (ENOTDIR) and may fail - leaving a store
+                    let _ = fs::remove_dir_all(&l);
+                    if fs::write(&l, b"not a directory").is_ok() {
+                        self.backup_blocked = true;
+                        self.stats.inc("fault/backup_path_blocked");
+                    }
                 }
                 None
             }
@@ -1574,6 +1595,7 @@ impl Sim {
                 self.close_store();
                 let _ = fs::remove_dir_all(&self.dir);
                 self.dir = dst;
+                self.backup_blocked = false;
             }
         }
         if let Err(f) = self.open_store(i) {
@@ -1615,17 +1637,112 @@ impl Sim {
         None
     }
 
+    /// A rebuild that ran out of room (`fsize`), or found the place of its backup taken by
+    /// something it cannot remove, has consumed the store object and returned an error. No property says what the directory then holds - the previous state is in the
+    /// backup files - but whatever a restarted process opens there must be a store in the sense
+    /// of the properties: a sub-state of the one before (events and markers may be missing,
+    /// nothing may be added or altered) in which every access path agrees and the counts add up.
+    fn after_failed_rebuild(&mut self, i: usize, err: String) -> Option<Finding> {
+        self.stats.inc(if self.backup_blocked { "fault/rebuild_failed_backup_path_blocked" } else { "fault/rebuild_failed_no_room" });
+        self.backup_blocked = false;
+        self.log.push(format!("#{i} rebuild failed: {err}"));
+        // the process "restarts": the environments the failed call left open are abandoned and
+        // the files are opened afresh from a copy
+        let dst = self.next_dir();
+        if let Err(e) = hooks::copy_store_files(&self.dir, &dst) {
+            return Some(self.finding(i, "copy-failed", &[], format!("harness: copy failed: {e}")));
+        }
+        let _ = fs::remove_dir_all(&self.dir);
+        self.dir = dst;
+        let names = extra_names(self.cfg.extra_tables);
+        let d = self.dir.clone();
+        match real::catch(|| Store::new(&d, names)) {
+            Ok(Ok(s)) => self.store = Some(s),
+            _ => {
+                // not a state any property speaks about; the operator goes back to the backup
+                self.stats.inc("probe/failed_rebuild_leaves_unopenable_dir");
+                self.stop = true;
+                return None;
+            }
+        }
+        self.disturb("restart");
+        self.failed_store_since_restart = false;
+        self.model.offsets.clear();
+        // adopt the sub-state: which events, markers and extra rows are still there
+        let mut lost = 0u64;
+        {
+            let store = self.store.as_ref().unwrap();
+            let ids: Vec<B32> = self.model.retrievable.iter().copied().collect();
+            for id in ids {
+                if !store.has_event(pocket_types::Id::from_bytes(id)).unwrap_or(true) {
+                    let _ = self.model.retrievable.remove(&id);
+                    lost += 1;
+                }
+            }
+            let dels: Vec<B32> = self.model.deleted_ids.iter().copied().collect();
+            for id in dels {
+                if !store.event_is_deleted(pocket_types::Id::from_bytes(id)).unwrap_or(true) {
+                    let _ = self.model.deleted_ids.remove(&id);
+                    lost += 1;
+                }
+            }
+            let addrs: Vec<(AddrKey, u64)> = self.model.deleted_addrs.iter().map(|(a, t)| (a.clone(), *t)).collect();
+            for (a, _) in addrs {
+                if let Ok(None) = store.naddr_is_deleted_asof(&real::addr_of(&a)) {
+                    let _ = self.model.deleted_addrs.remove(&a);
+                    lost += 1;
+                }
+            }
+            for t in 0..self.cfg.extra_tables {
+                let name = obs::EXTRA_NAMES[t as usize];
+                let rows = real::catch(|| -> Option<Vec<(Vec<u8>, Vec<u8>)>> {
+                    let table = store.extra_table(name)?;
+                    let txn = store.read_txn().ok()?;
+                    let mut rows = vec![];
+                    for r in table.iter(&txn).ok()? {
+                        let (k, v) = r.ok()?;
+                        rows.push((k.to_vec(), v.to_vec()));
+                    }
+                    Some(rows)
+                });
+                if let Ok(Some(rows)) = rows {
+                    if let Some(m) = self.model.extra.get_mut(&t) {
+                        let keep: std::collections::BTreeSet<Vec<u8>> = rows.iter().filter(|(k, v)| m.get(k) == Some(v)).map(|(k, _)| k.clone()).collect();
+                        if keep.len() == rows.len() {
+                            // a subset of the rows that were there: adopt it
+                            let before = m.len();
+                            m.retain(|k, _| keep.contains(k));
+                            lost += (before - m.len()) as u64;
+                        }
+                    }
+                }
+            }
+        }
+        self.stats.add("probe/failed_rebuild_items_missing_afterwards", lost);
+        self.sig_mix("rebuild-failed");
+        let ctx = OpCtx { kind: CtxKind::Restart, event: None, desc: "reopening what a rebuild that ran out of room left behind".into(), also: &["C17", "C16"] };
+        self.check_against_model(i, &ctx)
+    }
+
     fn do_rebuild(&mut self, i: usize) -> Option<Finding> {
         let before = self.observe();
         self.refs.clear();
         self.remove_blockers();
         self.stats.inc("fault/restart/rebuild");
         let store = self.store.take().unwrap();
-        let r = real::catch(|| unsafe { store.rebuild() });
+        let fsize = self.pending_fsize.take().map(|m| self.fsize_limit(m));
+        if fsize.is_some() {
+            self.stats.inc("fault/fsize_limit");
+        }
+        let r = with_fsize_limit(fsize.unwrap_or(u64::MAX), || real::catch(|| unsafe { store.rebuild() }));
         match r {
             Err(p) => return Some(self.finding(i, "rebuild-panicked", &["C16"], format!("rebuild panicked: {p}"))),
+            Ok(Err(e)) if fsize.is_some() || self.backup_blocked => return self.after_failed_rebuild(i, real::err_name(&e.inner)),
             Ok(Err(e)) => return Some(self.finding(i, "rebuild-failed", &["C16"], format!("rebuild failed: {}", real::err_name(&e.inner)))),
-            Ok(Ok(s)) => self.store = Some(s),
+            Ok(Ok(s)) => {
+                self.store = Some(s);
+                self.backup_blocked = false;
+            }
         }
         self.disturb("restart");
         self.log.push(format!("#{i} rebuild"));
@@ -1835,6 +1952,7 @@ impl Sim {
             self.close_store();
             let _ = fs::remove_dir_all(&self.dir);
             self.dir = dir;
+            self.backup_blocked = false;
             self.model = m;
             self.stats.inc("fault/crash_adopted");
             self.disturb("crash");
